@@ -608,9 +608,12 @@ impl<Tx: Debug + ProstMessage + Default, Rx: Debug + ProstMessage + Default> Cha
                     buffer.len(),
                     "available_data must equal the data slice length we validated against"
                 );
-                let message = Rx::decode(&buffer[delimiter_size()..message_len])
-                    .map_err(ChannelError::InvalidProtobufMessage)?;
+                // consume the frame whether or not its payload decodes: an
+                // undecodable frame left in place would be parsed again forever
+                // and block every message behind it
+                let decoded = Rx::decode(&buffer[delimiter_size()..message_len]);
                 let consumed = self.front_buf.consume(message_len);
+                let message = decoded.map_err(ChannelError::InvalidProtobufMessage)?;
                 // The whole frame (delimiter + payload) is consumed exactly:
                 // pair-assert that consume advanced by message_len and the data
                 // pointer moved forward by the same amount.
